@@ -532,7 +532,7 @@ func (d *lockDomain) classify() {
 	}
 	fields := map[string]types.Type{}
 	for i := 0; i < st.NumFields(); i++ {
-		fields[st.Field(i).Name()] = st.Field(i).Type()
+		fields[canonField(d.owner, st.Field(i).Name())] = st.Field(i).Type()
 	}
 	pseudo := map[string]bool{}
 	for _, fn := range d.fns {
